@@ -1492,14 +1492,17 @@ pub fn c05_profiles(quick: bool) -> Vec<(Profile, u64)> {
         // a transaction that spilled big pages out of a small cache, read them back and was
         // abandoned; what follows allocates pages of other sizes at the same offsets
         let mut pre = vec![Op::Begin, Op::Open { slot: 0, name: "t".into(), spec: TU }];
-        for i in 1..=3u64 {
+        for i in 1..=8u64 {
             pre.push(Op::Insert { slot: 0, k: Val::U(4100 + i), v: Val::B(payload(4100 + i, 3000)) });
         }
-        for i in 1..=3u64 {
+        // read back, the oldest (lowest, first spilled) pages last so that they stay cached
+        for i in (1..=8u64).rev() {
             pre.push(Op::Get { slot: 0, k: Val::U(4100 + i) });
         }
         pre.push(Op::Seq(vec![Op::Abort, Op::Begin]));
-        seeds.push(Seed { name: "spilled-then-abandoned/c8192".into(), cfg: CFG_CACHE8K, setup: c01_setup(false, false, false), pre });
+        // write buffer 16 KiB (the 8 four-KiB pages spill), read cache 16 KiB (keeps four of them)
+        let cfg = Cfg::new(512, Some(32 * 1024), 32 * 1024);
+        seeds.push(Seed { name: "spilled-then-abandoned/c32768".into(), cfg, setup: c01_setup(false, false, false), pre });
     }
     vec![(
         Profile {
